@@ -23,6 +23,10 @@ EXTRA = {
     "C03-m4": ["C11"], "C06-m4": ["C18", "C09"], "C06-m6": ["C07"], "C07-m6": ["C12"], "C13-m6": ["C02"],
     "C05-m6": ["C06", "C09", "C07"], "C08-m5": ["C17"], "C08-m6": ["C04"], "C11-m5": ["C19"], "C15-m4": ["C04"],
     "C15-m5": ["C04", "C03"], "C15-m6": ["C03"], "C20-m6": ["C18"],
+    # third wave
+    "C01-m8": ["C19"], "C02-m7": ["C05"], "C02-m9": ["C01", "C17"], "C03-m7": ["C04"], "C03-m8": ["C04"], "C03-m9": ["C04"],
+    "C05-m7": ["C19"], "C05-m8": ["C15"], "C05-m9": ["C11"], "C08-m7": ["C19"], "C08-m8": ["C02"], "C09-m8": ["C19"],
+    "C10-m9": ["C07"], "C11-m8": ["C18"], "C11-m9": ["C04"], "C14-m9": ["C11"], "C20-m7": ["C18"], "C15-m8": ["C04"],
 }
 # changes that no longer apply to /repo because the defect they relied on was repaired in the meantime
 SUPERSEDED = {
